@@ -5,7 +5,7 @@ From LV Require Import Base.Bytes Base.Sx Model.Obj Model.DocQ Gen.Crypto
   Model.Crypto.Word Model.Crypto.MD5 Model.Crypto.RC4 Model.Crypto.PKCS5 Model.Crypto.Handler Model.Crypto.Concrete
   Spec.Crypto.Iso Spec.Crypto.IsoConcrete
   Proofs.CryptoProofs Proofs.CryptoProofsFilter Proofs.CryptoProofsObject Proofs.CryptoProofsDoc Proofs.IsoProofs Proofs.IsoProofsData
-  Proofs.IsoProofsObj Proofs.IsoProofsFilter Proofs.IsoProofsAuth Proofs.IsoProofsDoc Proofs.IsoProofsRT Proofs.IsoProofsDoc2.
+  Proofs.IsoProofsObj Proofs.IsoProofsFilter Proofs.IsoProofsAuth Proofs.IsoProofsDoc Proofs.IsoProofsRT Proofs.IsoProofsDoc2 Proofs.IsoProofsDoc6.
 Local Open Scope N_scope.
 
 (* the Gallina MD5 yields 16 bytes: the one fact about MD5 the refinement theorems use *)
@@ -233,4 +233,27 @@ Proof.
   - intros id Hin. cbn [ex_doc d_objects map fst In d_max_id] in *.
     destruct Hin as [H|[H|[H|[]]]]; subst id; cbv; discriminate.
   - reflexivity.
+Qed.
+
+(* ---------- revisions 5 / 6: a satisfiable request (V 5, R 6, AESV3 crypt filter, EncryptMetadata false) ---------- *)
+Definition ex_rq_v5 : irequest :=
+  {| rq_V := 5; rq_R := 6; rq_Length := 256; rq_EncryptMetadata := false; rq_CF := [(KS, ICF_AESV3)];
+     rq_StmF := KS; rq_StrF := KS; rq_EFF := None; rq_owner := Some (bs "owner"); rq_user := bs "user";
+     rq_P := P_of_flags 2052; rq_fek := zeros 32 |}.
+Lemma ex_request_ok_v5 : IsoProofsDoc6.request_ok_r6 ex_rq_v5 /\ doc_ok (rq_core ex_rq_v5) ex_doc (Some (5, 0)).
+Proof.
+  split.
+  - constructor.
+    + split; [reflexivity|right; reflexivity].
+    + intros _. constructor; cbn [rq_core ex_rq_v5 ip_CF ip_StmF ip_StrF ip_EFF ip_V map fst rq_CF rq_StmF rq_StrF rq_EFF rq_V].
+      * constructor; [intros []|constructor].
+      * reflexivity.
+      * right. vm_compute. discriminate.
+      * right. vm_compute. discriminate.
+      * intros e H. discriminate H.
+      * intro H. discriminate H.
+    + reflexivity.
+    + reflexivity.
+  - constructor; try reflexivity; [|apply ex_doc_objs_ok].
+    intros s Hs. inversion Hs; subst s. cbn [ex_doc d_objects map fst In]. intros [H|[H|[H|[]]]]; discriminate H.
 Qed.
